@@ -36,7 +36,7 @@ FEATS = ["area_um", "deform", "bright_avg", "pos_x", "userdef1", "time"]
 
 def plan(tier):
     if tier == "quick":
-        return {"runs": 3000, "budget_s": 45, "run_timeout_s": 120, "det_pairs": 3}
+        return {"runs": 5000, "budget_s": 45, "run_timeout_s": 120, "det_pairs": 3}
     return {"runs": 400000, "budget_s": 780, "run_timeout_s": 180, "det_pairs": 3}
 
 
